@@ -7,7 +7,10 @@ import (
 	"net/url"
 	"strings"
 
+	cidlink "github.com/ipld/go-ipld-prime/linking/cid"
 	"github.com/libp2p/go-libp2p/core/network"
+	"github.com/libp2p/go-libp2p/core/peer"
+	"github.com/multiformats/go-multiaddr"
 )
 
 // C04 (d): the per-request fallback state machine of fetch never strands the
@@ -168,4 +171,40 @@ func VerifC04_ResetRetryBounded() {
 		err = s.fetch(context.Background(), "head", func(io.Reader) error { got = true; return nil })
 	}
 	verif_Assert(err == nil && got, "once the publisher stops resetting a fetch succeeds")
+}
+
+// C04 (a failed sync does not impair later syncs, client creation): creating
+// the sync client for a publisher fails — no address at all, libp2p addresses
+// only (no HTTP server to fall back to) — and afterwards a client for a
+// publisher that is reachable is created, works, and the Sync shuts down:
+// nothing the failed attempt held stays held.
+func VerifC04_FailedClientCreationLeavesSyncUsable() {
+	s := NewSync(cidlink.DefaultLinkSystem(), nil)
+	rt := &vRT{fn: func(req *http.Request) (*http.Response, error) { return vResp(http.StatusOK, []byte("x")), nil }}
+	s.client.Transport = rt
+	pid := peer.ID([]byte{0x00, 0x01, 0xaa})
+	var bad []multiaddr.Multiaddr
+	switch verif_Choose("unreachablePublisher", 0, 2) {
+	case 0: // no address and no stream host to look one up in
+	case 1: // a libp2p transport address only
+		bad = []multiaddr.Multiaddr{vMA("/ip4/10.0.0.1/tcp/4001")}
+	case 2:
+		bad = []multiaddr.Multiaddr{vMA("/ip4/10.0.0.1/udp/4001/quic-v1"), vMA("/ip4/10.0.0.1/tcp/4001")}
+	}
+	failures := verif_Choose("failedAttempts", 1, 2)
+	for i := 0; i < failures; i++ {
+		sy, err := s.NewSyncer(peer.AddrInfo{ID: pid, Addrs: bad})
+		verif_Assert(err != nil && sy == nil, "no sync client for a publisher without any HTTP address")
+	}
+	sy, err := s.NewSyncer(peer.AddrInfo{ID: pid, Addrs: []multiaddr.Multiaddr{vMA("/ip4/127.0.0.1/tcp/80/http")}})
+	verif_Reach("later creation returned") // (a creation that never returns is reported as a hang)
+	verif_Assert(err == nil && sy != nil, "a later sync client is created as if the failed attempts had not happened")
+	if sy == nil {
+		return
+	}
+	got := false
+	ferr := sy.fetch(context.Background(), "head", func(io.Reader) error { got = true; return nil })
+	verif_Assert(ferr == nil && got, "and it fetches")
+	s.Close()
+	verif_Reach("closed")
 }
